@@ -1917,11 +1917,30 @@ fn eval_in_list_in_list(list: &Value, items: &[Value]) -> Value {
   VALUE_FALSE
 }
 
-/// Negation of [eval_in_list]: `true` when none of the items is satisfied.
+/// Negation of [eval_in_list]: `false` when one of the items is satisfied, `true` when every item
+/// is decided and none is satisfied. A comparison or an interval that can not be decided for
+/// the tested value (`not(< 5)` of a string or of null) leaves the negation undecided: `not(null)` is null.
 fn eval_in_negated_list(left: &Value, items: &[Value]) -> Value {
-  match eval_in_list(left, items) {
-    Value::Boolean(satisfied) => Value::Boolean(!satisfied),
-    other => other,
+  let mut undecided = false;
+  for item in items {
+    let result = match item {
+      Value::UnaryLess(inner) => eval_in_unary_less(left, inner.borrow()),
+      Value::UnaryLessOrEqual(inner) => eval_in_unary_less_or_equal(left, inner.borrow()),
+      Value::UnaryGreater(inner) => eval_in_unary_greater(left, inner.borrow()),
+      Value::UnaryGreaterOrEqual(inner) => eval_in_unary_greater_or_equal(left, inner.borrow()),
+      inner @ Value::Range(_, _, _, _) => eval_in_range(left, inner),
+      other => eval_in_list(left, std::slice::from_ref(other)),
+    };
+    match result {
+      Value::Boolean(true) => return VALUE_FALSE,
+      Value::Boolean(false) => {}
+      _ => undecided = true,
+    }
+  }
+  if undecided {
+    value_null!("a negated unary test can not be decided")
+  } else {
+    VALUE_TRUE
   }
 }
 
